@@ -34,7 +34,7 @@ func VerifH09c() {
 		nd.Assert(w.doSet(0, "a", w.freshVal(), 0) == nil, "H09c.later")
 	}
 	readKeys := nd.Choice("reader-op", 2) == 1
-	nd.SpawnRunsFirst(true)
+	nd.SpawnRunsFirst(P == 1) // with two preemptions both shapes are within the bound anyway
 	nd.SetPreemptionBound(P)
 	go func() {
 		w.gc("H09c")
@@ -80,7 +80,7 @@ func VerifH09d() {
 	var snap fs_db.Tx
 	var berr error
 	lv := snapshotLevels[nd.Choice("level", 2)]
-	nd.SpawnRunsFirst(true)
+	nd.SpawnRunsFirst(P == 1) // with two preemptions both shapes are within the bound anyway
 	nd.SetPreemptionBound(P)
 	go func() { snap, berr = w.d.Begin(ctx, lv) }()
 	cerr := w.txs[t].h.Commit(ctx)
